@@ -364,6 +364,10 @@ func genCase(t *rapid.T) mcase {
 		// matrix values are strings and compared as such
 		vals = []string{"1", "01", "1.0", "1.10", "1.1", "10", "1e1", "+3", "3", "0x10", "16", "X", "x", "x ", ""}
 	}
+	if rapid.IntRange(0, 5).Draw(t, "tokenvalues") == 0 {
+		// values are arbitrary strings - including ones that look like matrix tokens
+		vals = []string{"{{matrix}}", "img-{{matrix.os}}", "{{ matrix.arch }}", "x", "{{matrix.nope}}", "{{", "}}"}
+	}
 	val := rapid.SampledFrom(vals)
 	c.Setup = map[string][]string{}
 	for _, d := range names {
